@@ -108,19 +108,22 @@ func c05CanonPrint(out string) string {
 			date = first[:10]
 		}
 		isTx := len(first) > 11 && first[11] == '"'
-		switch {
-		case isTx:
+		if isTx {
 			get(date).txs = append(get(date).txs, b)
-		case strings.HasSuffix(lines[0], " balance"):
-			get(date).other = append(get(date).other, b)
-		default:
-			for _, l := range lines {
-				d := date
-				if len(l) >= 10 {
-					d = l[:10]
-				}
-				get(d).other = append(get(d).other, l)
+			continue
+		}
+		for li := 0; li < len(lines); li++ {
+			l := lines[li]
+			d := date
+			if len(l) >= 10 {
+				d = l[:10]
 			}
+			if strings.HasSuffix(l, " balance") {
+				// a multi-line assertion extends to the end of its block
+				get(d).other = append(get(d).other, strings.Join(lines[li:], "\n"))
+				break
+			}
+			get(d).other = append(get(d).other, l)
 		}
 	}
 	sort.Strings(order)
